@@ -26,7 +26,7 @@ RVInit(P, args, nblocks, cfg) ==
                        ELSE UndefV]
   IN [pc |-> P.entry, regs |-> regs0, ret1 |-> cfg.return1.r,
       stk |-> <<>>, heap |-> <<>>, flags |-> NoFlagsV, nblocks |-> nblocks,
-      out |-> <<>>, status |-> "run", tag |-> "", why |-> "", result |-> UndefV, steps |-> 0, hi |-> 0]
+      out |-> <<>>, status |-> "run", tag |-> "", why |-> "", result |-> UndefV, steps |-> 0, hi |-> 0, strict |-> TRUE]
 
 RVGet(s, r) == IF r = "X0" THEN ZeroV ELSE s.regs[r]
 RVSet(s, r, v) == IF r = "X0" THEN s ELSE [s EXCEPT !.regs[r] = v]
